@@ -139,4 +139,21 @@ CHECKS['C15'] = {
   'technique': 'table inversion check between two switch statements, per-iteration path counting, call-site agreement',
 }
 
+CHECKS['C04'] = {
+  'text': 'Decides the sequence contract structurally: the index arithmetic of get/set/pop_at/push_at is evaluated by the analyser over '
+          'small lengths and a wide key range (negative-from-end once, everything else refused before access); memmove extents equal the '
+          'tail (polynomial identity) and are ordered correctly around the count update; growth precedes slot writes and realloc sizes '
+          'cover items plus sentinel; List link/unlink cases are mirror images; sort only exchanges; rem stops at the first hit.',
+  'note': ASSUME + '; push_at insertion positions are taken per container as implemented today (they differ between Array and List/Tuple)',
+  'technique': 'partial evaluation of index arithmetic over the CFG, polynomial extent comparison, mirror-closure of per-path store sets',
+}
+CHECKS['C11'] = {
+  'text': 'Decides structural necessary conditions of iteration: empty-container guards before every count-1 access, Array cursor '
+          'stepping evaluated over concrete geometries, mirror-image backward cursors (List, Tree), views driving the underlying iterable '
+          'only through direction-matching cursor functions, zip-shortest, foreach expansion, len vs emptiness tests, List link pairing. '
+          'The Slice stop bound is a recorded known finding. Range/Slice arithmetic is value-level and not decided.',
+  'note': ASSUME,
+  'technique': 'guard evaluation under dominance, partial evaluation of cursor functions, mirror-image sibling comparison, who-may-call rules',
+}
+
 NOT_APPLICABLE = {}
